@@ -120,7 +120,25 @@ func c17() []*Ob {
 				}
 				// exclusive prefix sum
 				n := 0
-				for _, b := range fn.Blocks {
+				// the table may be built in Filter itself or in a private helper it calls
+				isTableStore := func(in ssa.Instruction) bool {
+					st, ok := in.(*ssa.Store)
+					if !ok {
+						return false
+					}
+					ia, ok := st.Addr.(*ssa.IndexAddr)
+					if !ok || ia.X.Type().String() != "[]uint32" {
+						return false
+					}
+					_, isMk := ia.X.(*ssa.MakeSlice)
+					_, isCall := ia.X.(*ssa.Call)
+					return isMk || isCall
+				}
+				tableFn := c.P.Locate(fn, isTableStore)
+				if tableFn == nil {
+					tableFn = fn
+				}
+				for _, b := range tableFn.Blocks {
 					for _, in := range b.Instrs {
 						st, ok := in.(*ssa.Store)
 						if !ok {
